@@ -17,7 +17,9 @@ WProgs == {[kind |-> "helper", pc |-> a, p1 |-> b, p2 |-> c] : a \in Placements3
 \* method *and* of the custom function named on it is a context exactly when the pattern in effect for that method matches;
 \* otherwise there are two sources and generation fails.
 Placements3R == {"absent", "match", "nomatch"}
-WProgsR == {[kind |-> "ctxregex", pc |-> a, p1 |-> b, p2 |-> c] : a \in Placements3R, b \in Placements3R, c \in Placements3R}
+\* kind "ctxregexfn": the same in the function output format (all converters of a run share one package and one custom function:
+\* what was decided about Fn under one converter's pattern must not carry over to the next)
+WProgsR == {[kind |-> k, pc |-> a, p1 |-> b, p2 |-> c] : k \in {"ctxregex", "ctxregexfn"}, a \in Placements3R, b \in Placements3R, c \in Placements3R}
 RegexLines(pl) == IF pl = "absent" THEN <<>> ELSE <<[key |-> "arg:context:regex", val |-> IF pl = "match" THEN "^kx$" ELSE "^zz$"]>>
 EffRegex(w, pl) == Effective(<<>>, RegexLines(w.pc), RegexLines(pl), "ctxRegex")
 RegexOK(w) == EffRegex(w, w.p1) = "^kx$" /\ EffRegex(w, w.p2) = "^kx$"
